@@ -1,6 +1,7 @@
 package core
 
 import (
+	"sync/atomic"
 	"encoding/hex"
 	"encoding/json"
 	"fmt"
@@ -218,6 +219,7 @@ const gotsPrefix = "github.com/Comcast/gots/v2"
 // the running property (clause "no_panic") attributed to the innermost gots
 // frame. It returns false when the call panicked.
 func (c *Ctx) Call(name string, f func()) (ok bool) {
+	atomic.AddUint64(&progress, 1)
 	if c.Journal != nil {
 		c.Journal(c.step, name)
 	}
@@ -232,6 +234,10 @@ func (c *Ctx) Call(name string, f func()) (ok bool) {
 	f()
 	return true
 }
+
+// Tick tells the watchdog that a long call is alive (used by harness parties that are called
+// back millions of times inside one library call).
+func (c *Ctx) Tick() { atomic.AddUint64(&progress, 1) }
 
 func panicKind(r interface{}) string {
 	s := fmt.Sprint(r)
